@@ -11,7 +11,7 @@ CURVES_PLAIN = ['NIST_P256', 'BSI_P256', 'SM2_P256', 'SECG_K256', 'SM9_P256']
 MLENS = [0, 1, 31, 32, 33, 55, 56, 63, 64, 65, 119, 120, 127, 128, 129]
 RSABITS = [768, 770, 776, 1010, 1017, 1018, 1024]
 
-BN_FAULTS = ['flip', 'flip', 'v_zero', 'v_ord', 'v_addord', 'v_negmod', 'v_inc', 'v_neg', 'v_one', 'prefix0', 'v_rand']
+BN_FAULTS = ['flip', 'flip', 'v_zero', 'v_ord', 'v_addord', 'v_negmod', 'v_inc', 'v_neg', 'v_one', 'prefix0', 'v_rand', 'v_big']
 PT_FAULTS = ['flip', 'flip', 'v_inf', 'v_gen', 'v_neg', 'v_dbl', 'v_rand', 'v_offcurve', 'tag', 'trunc1', 'set']
 G2_FAULTS = PT_FAULTS + ['v_nosub', 'v_nosub']
 GT_FAULTS = ['flip', 'v_one', 'v_gen', 'v_rand', 'v_inv', 'v_sqr', 'trunc1', 'set']
@@ -251,7 +251,13 @@ class V:
         self.out, self.s, self.prop = out, s, prop
 
     def bad(self, what, detail):
-        fl = '+'.join(self.s.faults()) or 'none'
+        fs = self.s.faults()
+        fl = '+'.join(fs) or 'none'
+        # zero-prefixed integers keep their value: they do not distinguish findings
+        fs = [f for f in fs if not (f.endswith(':prefix0') and self.s.m.get(f.split(':')[0], {}).get('type') == 'bn')] or fs
+        fl = '+'.join(fs) or 'none'
+        if fs and all(f.endswith(':v_addord') for f in fs):
+            fl = 'scalar+order'         # one finding per scheme, whichever components were shifted by the order
         self.out.violate(self.prop, '%s|%s|%s|%s' % (self.prop, self.s.scheme, fl, what),
                          '%s session %d (faults: %s): %s\n%s' % (self.s.scheme, self.s.sid, fl, detail, '\n'.join(self.s.lines)[:2500]))
 
@@ -272,6 +278,9 @@ def generic_sig_oracle(ver_name='ver', authenticated=None, ok_malleations=()):
         changed = [f for f in fields if s.changed(f)]
         out.evals += 1
         out.keys.add((s.scheme, tuple(s.faults()), got, bool(changed)))
+        if any(f in ('pk',) for f in changed) and any(f not in ('pk',) for f in changed):
+            out.probe('key-and-signature-both-substituted')
+            return
         # a substitution that is valid by the scheme's definition
         if changed and tuple(sorted('%s:%s' % (f, s.m[f]['kind']) for f in changed)) in ok_malleations:
             out.probe('legal-malleation')
